@@ -6,6 +6,7 @@ structure Cfg where
   earlyExitStrictLess : Bool
   improveStrictLess : Bool
   restarts : Nat
+  exactImproveStrictLess : Bool
   deriving Repr, DecidableEq
-def cfg : Cfg := { returnsPositionArray := true, earlyExitStrictLess := true, improveStrictLess := true, restarts := 150 }
+def cfg : Cfg := { returnsPositionArray := true, earlyExitStrictLess := true, improveStrictLess := true, restarts := 150, exactImproveStrictLess := true }
 end TopSearch.Gen.Align
